@@ -156,6 +156,9 @@ def body(chk):
     chk.assumptions += ["the model's rpc 1, 2, 3 stand for records_per_chunk 2, 1024, 3", "for memory:// and vtrace:// products the CLI (which needs a local "
                         "path) runs on a local twin and its index file is then placed next to the image",
                         "lookup order between the two locations is not prescribed (the documentation and the code disagree); either is accepted"]
+    from harness import sessioncheck
+
+    sessioncheck.standard(chk)
     chk.finish(rule="scenarios = level x filesystem x producer {option, CLI adjacent, both, CLI into the user cache dir} x (rpc_write, rpc_read); each "
                     "runs produce / cached open / poisoned uncached open / cache-less open; evaluations = steps; distinct = scenarios",
                exhaustive=False, extra={"indexes_poisoned": npois})
